@@ -319,6 +319,10 @@ func collectOutputs(outFiles map[string]string, stdout string, tpl *detTemplate)
 }
 
 func runInProcess(t *testing.T, dir string, tpl *detTemplate, c *DetCase, seam Seam, tag string) detResult {
+	return runInProcessRes(t, dir, tpl, c, seam, tag, nil)
+}
+
+func runInProcessRes(t *testing.T, dir string, tpl *detTemplate, c *DetCase, seam Seam, tag string, out *sched.Result) detResult {
 	args, outFiles := tpl.expand(dir, c, tag)
 	stdoutPath := filepath.Join(dir, tag+".stdout")
 	f, err := os.Create(stdoutPath)
@@ -337,6 +341,9 @@ func runInProcess(t *testing.T, dir string, tpl *detTemplate, c *DetCase, seam S
 	})
 	os.Stdout = realStdout
 	f.Close()
+	if out != nil {
+		*out = res
+	}
 	sb, _ := os.ReadFile(stdoutPath)
 	os.Remove(stdoutPath)
 	status := "ok"
